@@ -92,6 +92,10 @@ def build_array(shape, kind, re, im):
         a = np.array(re, dtype=float) + 1j * np.array(im, dtype=float)
     elif kind == 'r':
         a = np.array(re, dtype=float)
+    elif kind == 'i':
+        a = np.array(re, dtype=np.int64)
+    elif kind == 'b':
+        a = np.array(re, dtype=bool)
     else:
         raise MachineryError('literal of kind %r' % kind)
     return a.reshape(tuple(shape))
@@ -129,6 +133,12 @@ BIN_SPELL = {
     'min': [np.minimum],
     'gt': [operator.gt, np.greater],
     'lt': [operator.lt, np.less],
+    'ge': [operator.ge, np.greater_equal],
+    'le': [operator.le, np.less_equal],
+    'eq': [operator.eq, np.equal],
+    'ne': [operator.ne, np.not_equal],
+    'and': [operator.and_, np.logical_and],
+    'or': [operator.or_, np.logical_or],
 }
 UN_SPELL = {
     'neg': [operator.neg, np.negative],
@@ -138,8 +148,63 @@ UN_SPELL = {
     'conj': [np.conj, np.conjugate, lambda a: a.conj(), lambda a: a.conjugate()],
     're': [np.real, lambda a: a.real],
     'im': [np.imag, lambda a: a.imag],
+    'not': [operator.invert, np.logical_not],
 }
-RED_FUNC = {'sum': np.sum, 'mean': np.mean, 'max': np.max, 'min': np.min}
+RED_FUNC = {'sum': np.sum, 'mean': np.mean, 'max': np.max, 'min': np.min, 'prod': np.prod, 'any': np.any, 'all': np.all}
+OUT_FUNC = {'add': np.add, 'sub': np.subtract, 'mul': np.multiply, 'div': np.divide, 'max': np.maximum, 'min': np.minimum}
+DTYPES = {'r': float, 'c': complex, 'i': np.int64, 'b': bool}
+
+
+def py_index(form, args):
+    """the Python index object of an index form (always through an Ellipsis except at0)"""
+    if form == 'at0':
+        return args[0]
+    if form == 'atl':
+        return (Ellipsis, args[0])
+    if form == 'sl':
+        return (Ellipsis, slice(args[0], args[1], args[2]))
+    if form == 'psl':
+        return (Ellipsis, slice(args[0], args[1], args[2]))
+    if form == 'tk':
+        return (Ellipsis, list(args[0]))
+    raise MachineryError('index form %r' % form)
+
+
+def plain_field_dot(a, b):
+    a, b = np.asarray(a), np.asarray(b)
+    key = (a.ndim, b.ndim)
+    subs = {(2, 2): 'iz,iz->z', (3, 2): 'ijz,jz->iz', (2, 3): 'iz,ijz->jz', (3, 3): 'ijz,jkz->ikz'}.get(key)
+    if subs is None:
+        raise ValueError('field_dot reference: tensor orders %r' % (key,))
+    return np.einsum(subs, a, b)
+
+
+def apply_fn1(mode, f, args, sp, a):
+    if f == 'rk':
+        ax = AXIS[args[1]]
+        return RED_FUNC[args[0]](a, axis=ax, keepdims=True) if sp % 2 == 0 else getattr(a, args[0])(axis=ax, keepdims=True)
+    if f in ('cs', 'cp'):
+        name = 'cumsum' if f == 'cs' else 'cumprod'
+        ax = AXIS[args[0]]
+        return getattr(np, name)(a, axis=ax) if sp % 2 == 0 else getattr(a, name)(axis=ax)
+    if f == 'sort':
+        return np.sort(a, axis=-1) if sp % 2 == 0 else np.sort(a)
+    if f == 'argsort':
+        return np.argsort(a, axis=-1, kind='stable') if sp % 2 == 0 else a.argsort(kind='stable')
+    if f in ('amax', 'amin'):
+        name = 'argmax' if f == 'amax' else 'argmin'
+        ax = AXIS[args[0]]
+        if sp % 2 == 0:
+            return getattr(np, name)(a) if ax is None else getattr(np, name)(a, axis=ax)
+        return getattr(a, name)() if ax is None else getattr(a, name)(axis=ax)
+    if f == 'as':
+        return a.astype(DTYPES[args[0]])
+    if f == 'ftrace':
+        if mode == 'plain':
+            return np.einsum('iiz->z', a)
+        import hcipy
+        return hcipy.field_trace(a)
+    raise MachineryError('fn1 %r' % f)
 AXIS = {'all': None, 'last': -1, 'first': 0}
 IOP = {'add': operator.iadd, 'sub': operator.isub, 'mul': operator.imul, 'div': operator.itruediv}
 
@@ -197,6 +262,15 @@ class Interp:
                 self.findings.append(('grid-changed %s %s' % (self.mode, name),
                                       '%s of a Field returned a Field on a different grid under %s-style fields' % (name, self.mode)))
 
+    def _attached_check(self, name, operands, res):
+        """clause: results of array methods that both styles keep attached stay on the first Field's grid"""
+        if self.mode == 'plain' or not is_field(operands[0]) or np.ndim(res) == 0:
+            return
+        if not is_field(res):
+            self.findings.append(('grid-lost %s %s' % (self.mode, name), '%s of a Field returned a bare %s under %s-style fields' % (name, type(res).__name__, self.mode)))
+        elif res.grid is None or not (res.grid == operands[0].grid):
+            self.findings.append(('grid-changed %s %s' % (self.mode, name), '%s of a Field returned a Field on a different grid under %s-style fields' % (name, self.mode)))
+
     def _roundtrip_check(self, name, src, res):
         if self.mode == 'plain' or not is_field(src):
             return
@@ -246,14 +320,34 @@ class Interp:
             return m() if ax is None else m(axis=ax)
         if t == 'idx':
             a = self.ev(e[3])
-            form, args = e[1], e[2]
-            if form == 'at0':
-                return a[args[0]]
-            if form == 'atl':
-                return a[..., args[0]]
-            if form == 'sl':
-                return a[..., args[0]:args[1]:args[2]]
-            raise MachineryError('index form %r' % form)
+            return a[py_index(e[1], e[2])]
+        if t == 'app1':
+            a = self.ev(e[4])
+            res = apply_fn1(self.mode, e[1], e[2], e[3], a)
+            if e[1] in ('rk', 'cs', 'cp', 'sort', 'argsort', 'as') or (e[1] in ('amax', 'amin') and np.ndim(res) > 0):
+                self._attached_check(e[1], [a], res)
+            return res
+        if t == 'app2':
+            a, b = self.ev(e[3]), self.ev(e[4])
+            if e[1] == 'fdot':
+                if self.mode == 'plain':
+                    return plain_field_dot(a, b)
+                import hcipy
+                res = hcipy.field_dot(a, b)
+                self._attached_check('field_dot', [a, b], res)
+                return res
+            if e[1] == 'mm1':
+                return (a @ b) if e[2] % 2 == 0 else np.matmul(a, b)
+            raise MachineryError('fn2 %r' % e[1])
+        if t == 'app3':
+            a, b, c = self.ev(e[3]), self.ev(e[4]), self.ev(e[5])
+            if e[1] == 'where':
+                return np.where(a, b, c)
+            if e[1] == 'clip':
+                res = np.clip(a, b, c) if (e[2] % 2 == 0 or not hasattr(a, 'clip')) else a.clip(b, c)
+                self._elementwise_check('clip', [a, b, c], res)
+                return res
+            raise MachineryError('fn3 %r' % e[1])
         if t == 'mask':
             a = self.ev(e[1])
             m = self.ev(e[2])
@@ -311,16 +405,36 @@ class Interp:
             return s[1]
         if t == 'setix':
             e = self.ev(s[4])
+            self.env[s[1]][py_index(s[2], s[3])] = e
+            return s[1]
+        if t == 'iopix':
+            # x[i] op= e   ==   t = x[i]; t = t.__iop__(e); x[i] = t
+            e = self.ev(s[5])
             x = self.env[s[1]]
-            form, args = s[2], s[3]
-            if form == 'at0':
-                x[args[0]] = e
-            elif form == 'atl':
-                x[..., args[0]] = e
-            elif form == 'sl':
-                x[..., args[0]:args[1]:args[2]] = e
-            else:
-                raise MachineryError('index form %r' % form)
+            ix = py_index(s[3], s[4])
+            x[ix] = IOP[s[2]](x[ix], e)
+            return s[1]
+        if t == 'iopmask':
+            m = self.ev(s[3])
+            e = self.ev(s[4])
+            x = self.env[s[1]]
+            x[..., m] = IOP[s[2]](x[..., m], e)
+            return s[1]
+        if t == 'out':
+            a, b = self.ev(s[3]), self.ev(s[4])
+            OUT_FUNC[s[2]](a, b, out=self.env[s[1]])
+            return s[1]
+        if t == 'setreal':
+            self.env[s[1]].real = self.ev(s[2])
+            return s[1]
+        if t == 'setimag':
+            self.env[s[1]].imag = self.ev(s[2])
+            return s[1]
+        if t == 'sortip':
+            self.env[s[1]].sort()
+            return s[1]
+        if t == 'fill':
+            self.env[s[1]].fill(self.ev(s[2]))
             return s[1]
         if t == 'setmask':
             m = self.ev(s[2])
@@ -354,7 +468,7 @@ def describe(v, interp=None):
         tag, a = 's', np.asarray(v)
     else:
         return {'py': type(v).__name__}
-    kind = 'b' if a.dtype == bool else 'c' if np.iscomplexobj(a) else 'r' if a.dtype.kind in 'fiu' else '?'
+    kind = 'b' if a.dtype == bool else 'c' if np.iscomplexobj(a) else 'r' if a.dtype.kind == 'f' else 'i' if a.dtype.kind in 'iu' else '?'
     return {'tag': tag, 'shape': [int(n) for n in a.shape], 'kind': kind,
             'vals': np.array(a, dtype=complex).ravel()}
 
@@ -427,6 +541,12 @@ def _arr_tok(shape, kind, re, im):
     return t
 
 
+def ix_token(form, args):
+    if form == 'tk':
+        return 'tk.[%s]' % ','.join(str(int(i)) for i in args[0])
+    return '.'.join([form] + ['n' if a is None else str(a) for a in args])
+
+
 def expr_tokens(e, out):
     t = e[0]
     if t == 'var':
@@ -444,7 +564,13 @@ def expr_tokens(e, out):
     elif t == 'red':
         expr_tokens(e[4], out); out.append('%s.%s' % (e[1], e[2]))
     elif t == 'idx':
-        expr_tokens(e[3], out); out.append('.'.join([e[1]] + [str(a) for a in e[2]]))
+        expr_tokens(e[3], out); out.append(ix_token(e[1], e[2]))
+    elif t == 'app1':
+        expr_tokens(e[4], out); out.append('.'.join([e[1]] + [str(a) for a in e[2]]))
+    elif t == 'app2':
+        expr_tokens(e[3], out); expr_tokens(e[4], out); out.append(e[1])
+    elif t == 'app3':
+        expr_tokens(e[3], out); expr_tokens(e[4], out); expr_tokens(e[5], out); out.append(e[1])
     elif t == 'mask':
         expr_tokens(e[1], out); expr_tokens(e[2], out); out.append('mask')
     elif t == 'shaped':
@@ -476,7 +602,17 @@ def program_lines(prog):
         elif t == 'iop':
             toks.append('i.%s.%d' % (s[2], s[1])); expr_tokens(s[3], toks)
         elif t == 'setix':
-            toks.append('.'.join(['set', s[2]] + [str(a) for a in s[3]] + [str(s[1])])); expr_tokens(s[4], toks)
+            toks.append('set.%s.%d' % (ix_token(s[2], s[3]), s[1])); expr_tokens(s[4], toks)
+        elif t == 'iopix':
+            toks.append('iset.%s.%s.%d' % (s[2], ix_token(s[3], s[4]), s[1])); expr_tokens(s[5], toks)
+        elif t == 'iopmask':
+            toks.append('isetm.%s.%d' % (s[2], s[1])); expr_tokens(s[3], toks); toks.append(','); expr_tokens(s[4], toks)
+        elif t == 'out':
+            toks.append('out.%s.%d' % (s[2], s[1])); expr_tokens(s[3], toks); toks.append(','); expr_tokens(s[4], toks)
+        elif t in ('setreal', 'setimag', 'fill'):
+            toks.append('%s.%d' % ({'setreal': 'sreal', 'setimag': 'simag', 'fill': 'fill'}[t], s[1])); expr_tokens(s[2], toks)
+        elif t == 'sortip':
+            toks.append('sortip.%d' % s[1])
         elif t == 'setmask':
             toks.append('setm.%d' % s[1]); expr_tokens(s[2], toks); toks.append(','); expr_tokens(s[3], toks)
         else:
@@ -653,6 +789,39 @@ EXT = {
 }
 
 
+# the same operation is (now) also a construct of the Lean model; these entries remain as further spellings
+EXT_ALSO_MODELLED = ['absop', 'pow2', 'invert', 'ne', 'ge', 'logical_and', 'clip', 'npclip', 'astype', 'where3', 'prod', 'cumsum', 'npcumsum',
+                     'any', 'all_last', 'argmax', 'argmin_last', 'sum_keepdims', 'matmul', 'fancy', 'rev', 'take', 'npsort', 'sort_method',
+                     'argsort', 'field_dot', 'field_trace', 'ellipsis', 'flatten', 'npcopy', 'array', 'reshape_m1']
+XSTMT_ALSO_MODELLED = ['sort', 'fill', 'set_real', 'set_imag', 'ufunc_out_self', 'set_fancy', 'set_ellipsis', 'copyto']
+
+MODEL_OPS = [
+    'add', 'subtract', 'multiply', 'true_divide', 'maximum', 'minimum', 'greater', 'less', 'greater_equal', 'less_equal', 'equal', 'not_equal',
+    'logical_and', 'logical_or', 'negative', 'positive', 'abs', 'square', 'conj', 'real', 'imag', 'logical_not',
+    'sum', 'mean', 'max', 'min', 'prod', 'any', 'all', 'sum/…(keepdims=True)',
+    'x[i]', 'x[..., i]', 'x[..., a:b:c] (any sign of step)', 'x[..., [ints]]', 'x[..., mask]',
+    'shaped', 'reshape', 'ravel', 'copy', 'pickle', 'cumsum', 'cumprod', 'sort', 'argsort(stable)', 'argmax', 'argmin', 'astype',
+    'where', 'clip', 'a @ b (1-d)', 'field_dot', 'field_trace',
+    'x = e', 'h = x', 'x op= e', 'x[i] = e', 'x[..., mask] = e', 'x[i] op= e', 'x[..., mask] op= e', 'np.op(a, b, out=x)',
+    'x.real = e', 'x.imag = e', 'x.sort()', 'x.fill(e)',
+]
+
+DIFF_ONLY_WHY = {
+    'inexact kernels (no exact Rat semantics)': ['sqrtabs', 'exp', 'expi', 'sin', 'absz', 'rpow', 'recip', 'arctan2', 'hypot', 'angle', 'std', 'npvar_last', 'median', 'norm', 'field_inv'],
+    'floor/mod/rounding and multi-output ufuncs (signed zeros, half-to-even; left out)': ['rint', 'sign', 'mod', 'floordiv', 'fmax', 'divmod', 'npdivmod', 'modf', 'frexp', 'round0', 'isfinite', 'ptp'],
+    'keyword / ufunc-method dispatch variants of modelled kernels (where=, out=, dtype=, reduce, accumulate, outer, reduceat, at)': [
+        'add_where_outfield', 'add_where_outarr', 'mul_out_arr', 'add_dtype', 'sum_where', 'mean_where', 'sum_out', 'add_reduce', 'add_accumulate',
+        'mul_outer', 'add_reduceat', 'add_at', 'negative_out_self', 'multiply_out_tuple', 'ipow'],
+    'multi-axis layout operations (the model only distinguishes first / last axis)': ['newaxis', 'none0', 'nptake', 'diagonal', 'swapaxes', 'moveaxis', 'T', 'transpose',
+        'transpose_args', 'reshape_args', 'squeeze', 'expand_dims', 'repeat', 'roll', 'flip', 'concatenate', 'stack', 'mT', 'trace', 'dot', 'vdot', 'einsum'],
+    'order not specified by NumPy or index-valued helpers': ['partition', 'nonzero', 'compress', 'choose', 'searchsorted', 'put', 'npput', 'flat_set'],
+    'not array-valued (conversions, attributes, containers)': ['item', 'tolist', 'flat', 'bool1', 'boolmany', 'float0d', 'int0d', 'complex0d', 'len', 'size', 'ndim', 'shape',
+        'dtype', 'nbytes', 'itemsize', 'iter', 'contains', 'asarray_c', 'allclose', 'array_equal', 'zeros_like', 'full_like'],
+    'further hcipy tensor-field functions (einsum with size-1 broadcasting, determinants, …)': ['field_transpose', 'field_conjugate_transpose', 'field_kron', 'field_determinant',
+        'field_adjoint', 'field_cross'],
+}
+
+
 def _xs_put(x, v):
     x.put([0, -1], v)
     return x
@@ -719,6 +888,12 @@ def gen_values(rng, shape, kind, nonzero=False):
     re = [one() for _ in range(n)]
     im = [one() for _ in range(n)] if kind == 'c' else []
     return re, im
+
+
+EXPR_HEADS = ('var', 'lit', 'scal', 'field', 'bin', 'un', 'red', 'idx', 'mask', 'shaped', 'reshape', 'ravel', 'copy', 'pickle', 'app1', 'app2', 'app3', 'ext')
+NEW_CHOICES = ['cmp', 'cmp', 'redx', 'redx', 'scan', 'sort', 'arg', 'astype', 'where', 'clip', 'fdot', 'fdot', 'ftrace', 'mm1', 'pslice', 'take']
+FN_CLS = {'rk': 'reduce', 'cs': 'keep', 'cp': 'keep', 'sort': 'keep', 'argsort': 'keep', 'as': 'keep', 'amax': 'scalar0', 'amin': 'scalar0',
+          'ftrace': 'lib', 'fdot': 'lib', 'mm1': 'ufunc', 'where': 'func', 'clip': 'ufunc'}
 
 
 class Builder:
@@ -788,6 +963,27 @@ class Builder:
             return self.tags_of(e[3])
         if t in ('ravel', 'copy', 'pickle'):
             return self.tags_of(e[2])
+        if t in ('app1', 'app2', 'app3'):
+            ops = [self.tags_of(x) for x in (e[4:] if t == 'app1' else e[3:])]
+            cls = FN_CLS[e[1]]
+            if cls == 'ufunc':
+                return uf(ops)
+            if cls == 'reduce':
+                return uf(ops[:1])
+            bare = 's' if nd == 0 else 'p'
+            res = []
+            for r in (0, 1):
+                h = ops[0][r]
+                left = next((o[r] for o in ops if o[r][0] == 'f'), None)
+                if cls == 'keep':
+                    res.append(h if h[0] == 'f' else bare)
+                elif cls == 'scalar0':
+                    res.append(('s' if nd == 0 else h) if h[0] == 'f' else bare)
+                elif cls == 'func':
+                    res.append('p' if r == 0 else (left or 'p'))
+                else:   # lib
+                    res.append(left or bare)
+            return tuple(res)
         return ('?', '?')
 
     def tags_of(self, e):
@@ -801,6 +997,8 @@ class Builder:
         if t in ('lit', 'scal', 'field'):
             return 1
         if t == 'bin':
+            if e[1] in ('gt', 'lt', 'ge', 'le', 'eq', 'ne', 'and', 'or'):
+                return 1
             a, b = self.level(e[3]), self.level(e[4])
             if e[1] == 'mul':
                 return a + b
@@ -810,7 +1008,7 @@ class Builder:
         if t == 'un':
             return self.level(e[3]) * (2 if e[1] == 'sq' else 1)
         if t == 'red':
-            return 9 if e[1] == 'mean' else self.level(e[4])
+            return 9 if e[1] in ('mean', 'prod') else 1 if e[1] in ('any', 'all') else self.level(e[4])
         if t == 'idx':
             return self.level(e[3])
         if t == 'mask':
@@ -821,6 +1019,19 @@ class Builder:
             return self.level(e[3])
         if t in ('ravel', 'copy', 'pickle'):
             return self.level(e[2])
+        if t == 'app1':
+            f = e[1]
+            if f in ('argsort', 'amax', 'amin'):
+                return 1
+            if f == 'cp' or (f == 'rk' and e[2][0] in ('mean', 'prod')):
+                return 9
+            if f == 'as' and e[2][0] in ('i', 'b'):
+                return 1
+            return self.level(e[4])
+        if t == 'app2':
+            return self.level(e[3]) + self.level(e[4])
+        if t == 'app3':
+            return max(self.level(x) for x in e[3:])
         return 9
 
     def view_root(self, e):
@@ -861,7 +1072,7 @@ class Builder:
 
     def kind_of_val(self, v):
         a = np.asarray(v)
-        return 'b' if a.dtype == bool else 'c' if np.iscomplexobj(a) else 'r'
+        return 'b' if a.dtype == bool else 'c' if np.iscomplexobj(a) else 'i' if a.dtype.kind in 'iu' else 'r'
 
     def field_lit(self, g=None, kind=None, tensor=None):
         rng = self.rng
@@ -906,7 +1117,7 @@ class Builder:
         r = rng.random()
         shape = list(np.shape(like)) if like is not None else self.tensor + [self.n]
         if r < 0.45:
-            v = self.pick_var(lambda x: not nonzero)
+            v = self.pick_var(lambda x: not nonzero and self.kind_of_val(self.plain.env[x]) != 'b')
             if v is not None and (kind is None or self.kind_of_val(self.plain.env[v[1]]) == kind or kind == 'c'):
                 return v
         if r < 0.65:
@@ -925,24 +1136,29 @@ class Builder:
             base = self.field_lit()
         v = self.val(base)
         k = self.kind_of_val(v)
-        choices = ['bin', 'bin', 'bin', 'un', 'red', 'idx', 'mask', 'shape', 'copy', 'pickle']
+        choices = ['bin', 'bin', 'bin', 'un', 'red', 'idx', 'mask', 'shape', 'copy', 'pickle'] + NEW_CHOICES
         if self.ext:
-            choices += ['ext'] * 8
+            choices += ['ext'] * 12
         c = str(rng.choice(choices))
         sp = int(rng.integers(0, 12))
         if k == 'b':
-            c = 'copy'
+            c = str(rng.choice(['copy', 'pickle', 'not', 'logic', 'boolred', 'astype', 'where']))
         elif np.size(v) == 0:
             c = str(rng.choice(['copy', 'pickle', 'un']))
+        if c in NEW_CHOICES or c in ('not', 'logic', 'boolred'):
+            e = self.expr_new(c, base, v, k, sp)
+            if e is not None:
+                return e
+            return self.expr(depth + 1) if depth < 4 else ['copy', sp, base]
         if c == 'bin':
             op = str(rng.choice(['add', 'sub', 'mul', 'mul', 'div', 'max', 'min']))
             if op == 'div':
                 other = self.scalar(pow2=True) if rng.random() < 0.5 else self.operand(v, nonzero=True)
             elif op in ('max', 'min'):
-                if k != 'r':
+                if k == 'c':
                     base = ['un', str(rng.choice(['re', 'im'])), sp, base]
                 other = self.operand(v, kind='r')
-                if self.kind_of_val(self.val(other)) != 'r':
+                if self.kind_of_val(self.val(other)) == 'c':
                     other = ['un', 're', sp, other]
             else:
                 other = self.operand(v)
@@ -951,7 +1167,7 @@ class Builder:
                 e = ['bin', op, sp, base, other]
         elif c == 'un':
             u = str(rng.choice(['neg', 'pos', 'abs', 'sq', 'conj', 're', 'im']))
-            if u == 'abs' and k != 'r':
+            if u == 'abs' and k == 'c':
                 base = ['un', 're', sp, base]
             e = ['un', u, sp, base]
         elif c == 'red':
@@ -959,7 +1175,7 @@ class Builder:
             ax = str(rng.choice(['all', 'last', 'last', 'first']))
             if np.ndim(v) == 0:
                 ax = 'all'
-            if r in ('max', 'min') and k != 'r':
+            if r in ('max', 'min') and k == 'c':
                 base = ['un', 're', sp, base]
             e = ['red', r, ax, sp, base]
         elif c == 'idx':
@@ -1021,6 +1237,163 @@ class Builder:
             e = ['bin', str(rng.choice(['add', 'mul', 'sub'])), sp, e, self.scalar()] if rng.random() < 0.5 else ['un', str(rng.choice(['neg', 'conj', 'sq'])), sp, e]
         return e
 
+    def exact(self, e):
+        return self.level(e) <= 3
+
+    def decidable(self, l, r):
+        """may `l <op> r` be stored: its truth value must not hinge on rounding"""
+        if self.exact(l) and self.exact(r):
+            return True
+        lv, rv = np.asarray(self.val(l)), np.asarray(self.val(r))
+        try:
+            return bool(np.min(np.abs(lv - rv)) > 1e-6)
+        except ValueError:
+            return True      # shapes do not broadcast: an error case, decided before any comparison
+
+    def same_shape_var(self, shape, pred):
+        c = [x for x in self.live() if self.shape_of(x) == tuple(shape) and pred(self.kind_of_val(self.plain.env[x]))]
+        return ['var', int(self.rng.choice(c))] if c else None
+
+    def real_part(self, e):
+        return ['un', str(self.rng.choice(['re', 'im'])), 0, e] if self.kind_of_val(self.val(e)) == 'c' else e
+
+    def expr_new(self, c, base, v, k, sp):
+        rng = self.rng
+        nd = np.ndim(v)
+        if c == 'cmp':
+            op = str(rng.choice(['gt', 'lt', 'ge', 'le', 'eq', 'ne']))
+            l = base if op in ('eq', 'ne') else self.real_part(base)
+            r = self.operand(v, kind=None if op in ('eq', 'ne') else 'r')
+            if op not in ('eq', 'ne'):
+                r = self.real_part(r)
+            if op in ('eq', 'ne') and rng.random() < 0.4:
+                r = ['copy', 1, l] if rng.random() < 0.5 else ['un', 'conj', 0, l]       # equal (or conjugate) values
+            if self.kind_of_val(self.val(r)) == 'b' or not self.decidable(l, r):
+                return None
+            return ['bin', op, sp, l, r]
+        if c == 'not':
+            return ['un', 'not', sp, base] if k == 'b' else None
+        if c == 'logic':
+            if k != 'b':
+                return None
+            o = self.same_shape_var(np.shape(v), lambda kk: kk == 'b') or ['un', 'not', 0, base]
+            return ['bin', str(rng.choice(['and', 'or'])), sp, base, o]
+        if c == 'boolred':
+            if k != 'b':
+                return None
+            r = str(rng.choice(['any', 'all', 'sum']))
+            return ['red', r, str(rng.choice(['all', 'last'])) if nd else 'all', sp, base]
+        if c == 'redx':
+            if k == 'b' or nd == 0:
+                return None
+            r = str(rng.choice(['sum', 'mean', 'max', 'min', 'prod']))
+            ax = str(rng.choice(['all', 'last', 'first']))
+            b = self.real_part(base) if r in ('max', 'min') else base
+            if r == 'prod':
+                ax = 'first' if nd >= 2 else 'all'
+                if nd == 1 and np.shape(v)[0] > 6:
+                    return None
+            return ['app1', 'rk', [r, ax], sp, b] if rng.random() < 0.75 else ['red', r, ax, sp, b]
+        if c == 'scan':
+            if k == 'b' or nd == 0 or 0 in np.shape(v):
+                return None
+            f = 'cs' if rng.random() < 0.75 else 'cp'
+            ax = str(rng.choice(['all', 'last', 'first']))
+            if f == 'cp':
+                if nd < 2:
+                    return None
+                ax = 'first'
+            return ['app1', f, [ax], sp, base]
+        if c in ('sort', 'arg'):
+            if k == 'b' or nd == 0 or 0 in np.shape(v) or not self.exact(base):
+                return None
+            if c == 'sort':
+                return ['app1', str(rng.choice(['sort', 'argsort'])), [], sp, base]
+            return ['app1', str(rng.choice(['amax', 'amin'])), [str(rng.choice(['all', 'last']))], sp, self.real_part(base)]
+        if c == 'astype':
+            to = str(rng.choice(['c', 'r', 'i', 'b'] if k != 'c' else ['c', 'b']))
+            if to in ('i', 'b') and not self.exact(base):
+                return None
+            return ['app1', 'as', [to], sp, base]
+        if c == 'where':
+            if k == 'b':
+                cond = base
+                a = self.same_shape_var(np.shape(v), lambda kk: kk != 'b') or self.scalar()
+            else:
+                cond = self.mask_like(base)
+                a = base
+            if cond is None:
+                return None
+            b = self.operand(self.val(a)) if rng.random() < 0.7 else self.scalar()
+            if self.kind_of_val(self.val(b)) == 'b':
+                return None
+            return ['app3', 'where', sp, cond, a, b] if rng.random() < 0.6 else ['app3', 'where', sp, cond, b, a]
+        if c == 'clip':
+            if k == 'b':
+                return None
+            a = self.real_part(base)
+            lo = self.scalar('r') if rng.random() < 0.6 else self.real_part(self.operand(v, kind='r'))
+            hi = ['bin', 'add', 0, lo, ['scal', 'r', float(rng.integers(0, 5)), 0.0, 0]]
+            if self.kind_of_val(self.val(lo)) == 'b':
+                return None
+            return ['app3', 'clip', sp, a, lo, hi]
+        if c in ('fdot', 'ftrace'):
+            to, tn = self.tags_of(base)
+            if not (to[0] == 'f' and to == tn) or k == 'b':
+                return None
+            shp = np.shape(v)
+            if not shp or shp[-1] != int(np.prod(self.grids[int(to[1:])]['dims'])):
+                return None           # not a valid field any more (e.g. after a slice or keepdims reduction)
+            if c == 'ftrace':
+                return ['app1', 'ftrace', [], sp, base] if (len(shp) == 3 and shp[0] == shp[1]) or rng.random() < 0.03 else None
+            if len(shp) not in (2, 3) or 1 in shp[:-1]:
+                return None           # (einsum broadcasts tensor axes of length one; not modelled)
+            n = shp[-1]
+            def ok(x):
+                s2 = self.shape_of(x)
+                t2 = self.info[x]['tags']
+                if not (t2[0][0] == 'f' and t2[0] == t2[1]) or self.kind_of_val(self.plain.env[x]) == 'b':
+                    return False
+                return len(s2) in (2, 3) and s2[-1] == n and 1 not in s2[:-1]
+            cands = [x for x in self.live() if ok(x)]
+            o = ['var', int(rng.choice(cands))] if cands and rng.random() < 0.7 else self.field_lit(g=int(to[1:]), tensor=[[shp[-2]], [shp[-2], 2], [shp[-2], 3]][int(rng.integers(0, 3))])
+            return ['app2', 'fdot', sp, base, o] if rng.random() < 0.6 else ['app2', 'fdot', sp, o, base]
+        if c == 'mm1':
+            if nd != 1 or k == 'b' or np.shape(v)[0] == 0:
+                return None
+            o = self.same_shape_var(np.shape(v), lambda kk: kk != 'b') or base
+            return ['app2', 'mm1', sp, base, o]
+        if c == 'pslice':
+            if nd == 0 or 0 in np.shape(v):
+                return None
+            n = np.shape(v)[-1]
+            def bound():
+                return None if rng.random() < 0.35 else int(rng.integers(-n - 2, n + 3))
+            step = int(rng.choice([-1, -1, -2, -3, 1, 2])) if rng.random() < 0.97 else 0
+            return ['idx', 'psl', [bound(), bound(), step], base]
+        if c == 'take':
+            if nd == 0 or 0 in np.shape(v):
+                return None
+            n = np.shape(v)[-1]
+            l = [int(rng.integers(-n, n)) for _ in range(int(rng.integers(1, 5)))]
+            if rng.random() < 0.04:
+                l.append(n + int(rng.integers(0, 2)))
+            return ['idx', 'tk', [l], base]
+        return None
+
+    def mask_like(self, base):
+        """a boolean array of the full shape of `base` (or of its last axis)"""
+        v = self.val(base)
+        if np.ndim(v) == 0:
+            return None
+        if self.rng.random() < 0.5:
+            return self.mask_for(base)
+        l = self.real_part(base)
+        thr = self.scalar('r')
+        if not self.decidable(l, thr):
+            return None
+        return ['bin', str(self.rng.choice(['gt', 'lt', 'ge', 'le'])), 0, l, thr]
+
     def mask_for(self, base):
         """a boolean mask over the last axis of `base` whose value does not hinge on rounding"""
         rng = self.rng
@@ -1058,8 +1431,12 @@ class Builder:
                 v = self.plain.env[x]
         except MachineryError:
             raise
-        except (ValueError, IndexError) as e:
-            # deliberate error cases are kept as the last statement of the program
+        except (ValueError, IndexError, TypeError) as e:
+            # deliberate error cases are kept as the last statement of the program; a TypeError of an
+            # extended operation usually stems from a 0-d value being a scalar on plain arrays
+            if isinstance(e, TypeError) and has_ext({'stmts': [stmt]}):
+                self.plain.env = saved
+                return None
             self.plain.env = saved
             return 'error'
         except Exception:
@@ -1150,14 +1527,20 @@ class Builder:
             return e
 
         if self.ext and r < 0.3:
-            names = sorted(n for n in XSTMT if (not XSTMT[n].get('cplx') or k == 'c') and (not XSTMT[n].get('real') or k == 'r'))
+            names = sorted(n for n in XSTMT if (not XSTMT[n].get('cplx') or k == 'c') and (not XSTMT[n].get('real') or k in ('r', 'i')))
             name = names[int(rng.integers(0, len(names)))]
             spec = XSTMT[name]
             args = []
             if spec.get('ar'):
-                args = [self.scalar('r' if (k == 'r' or spec.get('cplx')) else None)] if (spec.get('scalar') or rng.random() < 0.5) else [value(shape, k == 'c')]
+                args = [self.scalar('r' if (k != 'c' or spec.get('cplx')) else None)] if (spec.get('scalar') or rng.random() < 0.5) else [value(shape, k == 'c')]
             stmt = ['xstmt', x, name, args]
-        elif r < 0.45:
+        elif r < 0.42 and not self.ext:
+            stmt = self.new_inplace(x, xv, k, shape, value)
+            if stmt is None:
+                return False
+        elif k == 'i' and r < 0.55:
+            stmt = ['fill', x, ['scal', 'r', float(rng.integers(-4, 5)) + (0.5 if rng.random() < 0.3 else 0.0), 0.0, 0]]
+        elif r < 0.55:
             op = str(rng.choice(['add', 'sub', 'mul', 'div']))
             if op == 'div':
                 e = self.scalar(pow2=True)
@@ -1166,20 +1549,9 @@ class Builder:
             else:
                 e = value(shape if rng.random() < 0.6 else shape[-1:], k == 'c')
             stmt = ['iop', x, op, e]
-        elif r < 0.75:
-            form = str(rng.choice(['at0', 'atl', 'sl']))
-            n0, nl = shape[0], shape[-1]
-            if form == 'at0':
-                args = [int(rng.integers(-n0, n0))]
-                sel = shape[1:]
-            elif form == 'atl':
-                args = [int(rng.integers(-nl, nl))]
-                sel = shape[:-1]
-            else:
-                a = int(rng.integers(0, nl + 1))
-                args = [a, int(rng.integers(a, nl + 2)), int(rng.integers(1, 3))]
-                sel = shape[:-1] + [len(range(nl)[args[0]:args[1]:args[2]])]
-            e = value(sel, k == 'c') if rng.random() < 0.7 else self.scalar('r' if k == 'r' else None)
+        elif r < 0.8:
+            form, args, sel = self.index_form(shape)
+            e = value(sel, k == 'c') if rng.random() < 0.7 else self.scalar('r' if k != 'c' else None)
             stmt = ['setix', x, form, args, e]
         else:
             m = self.mask_for(['var', x])
@@ -1188,7 +1560,7 @@ class Builder:
             cnt = int(np.count_nonzero(self.val(m)))
             q = rng.random()
             if q < 0.5:
-                e = self.scalar('r' if k == 'r' else None)
+                e = self.scalar('r' if k != 'c' else None)
             else:
                 c = [y for y in self.live() if self.shape_of(y) == tuple(shape) and (k == 'c' or self.kind_of_val(self.plain.env[y]) == 'r') and self.kind_of_val(self.plain.env[y]) != 'b']
                 e = ['mask', ['var', int(rng.choice(c))], m] if c else value(shape[:-1] + [cnt], k == 'c')
@@ -1199,7 +1571,9 @@ class Builder:
         self.stmts.append(stmt)
         if res == 'error':
             return 'error'
-        lev_e = self.level(stmt[-1]) if stmt[0] != 'xstmt' else 9
+        lev_e = 9 if stmt[0] == 'xstmt' else 1 if stmt[0] == 'sortip' else max([self.level(q) for q in stmt[2:] if isinstance(q, list) and q and isinstance(q[0], str) and q[0] in EXPR_HEADS] + [1])
+        if stmt[0] in ('iopix', 'iopmask', 'out') and stmt[2] in ('mul', 'div'):
+            lev_e = 9 if stmt[2] == 'div' else lev_e + self.info[x]['level']
         te = self.tags_of(stmt[3]) if stmt[0] == 'iop' else None
         self.kill_views(x)
         if stmt[0] == 'iop':
@@ -1221,6 +1595,73 @@ class Builder:
             if y != x and self.info[y]['root'] == self.info[x]['root'] and not self.info[y]['view']:
                 self.info[y]['level'] = self.info[x]['level']
         return True
+
+    def index_form(self, shape):
+        """(form, args, shape of the selection) for an item read-modify-write on an array of `shape`"""
+        rng = self.rng
+        form = str(rng.choice(['at0', 'atl', 'sl', 'psl', 'tk']))
+        n0, nl = shape[0], shape[-1]
+        if form == 'at0':
+            return form, [int(rng.integers(-n0, n0))], shape[1:]
+        if form == 'atl':
+            return form, [int(rng.integers(-nl, nl))], shape[:-1]
+        if form == 'sl':
+            a = int(rng.integers(0, nl + 1))
+            args = [a, int(rng.integers(a, nl + 2)), int(rng.integers(1, 3))]
+            return form, args, shape[:-1] + [len(range(nl)[args[0]:args[1]:args[2]])]
+        if form == 'psl':
+            def bound():
+                return None if rng.random() < 0.4 else int(rng.integers(-nl - 1, nl + 2))
+            args = [bound(), bound(), int(rng.choice([-1, -2, 1, 2]))]
+            return form, args, shape[:-1] + [len(range(nl)[slice(*args)])]
+        l = [int(rng.integers(-nl, nl)) for _ in range(int(rng.integers(1, 4)))]
+        return form, [l], shape[:-1] + [len(l)]
+
+    def new_inplace(self, x, xv, k, shape, value):
+        """the in-place statements beyond `x op= e` / `x[i] = e` / `x[mask] = e`"""
+        rng = self.rng
+        kinds = ['iopix', 'iopix', 'iopmask', 'out', 'out', 'setreal', 'sortip', 'fill']
+        if k == 'c':
+            kinds += ['setimag', 'setimag', 'setreal']
+        if k == 'i':
+            kinds = ['fill', 'sortip', 'out']
+        c = str(rng.choice(kinds))
+        def operand_for(sel):
+            q = rng.random()
+            if q < 0.45:
+                return self.scalar('r' if k != 'c' else None)
+            return value(sel if q < 0.85 else sel[-1:], k == 'c')
+        if c == 'iopix':
+            form, args, sel = self.index_form(shape)
+            if form == 'at0' and not sel:
+                return None           # x[i] op= e on a 1-d array works on a scalar copy
+            op = str(rng.choice(['add', 'sub', 'mul', 'div']))
+            e = self.scalar(pow2=True) if op == 'div' else operand_for(sel)
+            return ['iopix', x, op, form, args, e]
+        if c == 'iopmask':
+            m = self.mask_for(['var', x])
+            if m is None:
+                return None
+            op = str(rng.choice(['add', 'sub', 'mul']))
+            return ['iopmask', x, op, m, self.scalar('r' if k != 'c' else None)]
+        if c == 'out':
+            op = str(rng.choice(['add', 'sub', 'mul', 'max', 'min', 'div']))
+            a = ['var', x] if rng.random() < 0.6 else (self.same_shape_var(shape, lambda kk: kk != 'b') or ['var', x])
+            b = self.scalar(pow2=True) if op == 'div' else operand_for(shape)
+            if op in ('max', 'min'):
+                a, b = self.real_part(a), self.real_part(b)
+            return ['out', x, op, a, b] if rng.random() < 0.7 or op == 'div' else ['out', x, op, b, a]
+        if c in ('setreal', 'setimag'):
+            if c == 'setimag' and k != 'c' and rng.random() < 0.9:
+                return None
+            e = self.real_part(operand_for(shape))
+            return [c, x, e]
+        if c == 'sortip':
+            if not self.exact(['var', x]):
+                return None
+            return ['sortip', x]
+        e = self.scalar('r' if k != 'c' else None)
+        return ['fill', x, e]
 
     def add_alias(self):
         c = self.live()
@@ -1729,11 +2170,14 @@ def check_reuse(name, params, script, combos, default):
 # ---------------------------------------------------------------------------------------------
 # the property evaluated on the observations (independent of the Lean model)
 
+INPLACE_STMTS = ('iop', 'setix', 'setmask', 'xstmt', 'iopix', 'iopmask', 'out', 'setreal', 'setimag', 'sortip', 'fill')
+
+
 def stmt_sig(s):
     t = s[0]
     if t == 'assign':
         e = s[2]
-        return 'x=%s' % ('.'.join(str(p) for p in e[:2]) if e[0] in ('bin', 'un', 'red', 'idx', 'ext') else e[0])
+        return 'x=%s' % ('.'.join(str(p) for p in e[:2]) if e[0] in ('bin', 'un', 'red', 'idx', 'ext', 'app1', 'app2', 'app3') else e[0])
     if t == 'iop':
         return 'x %s= e' % {'add': '+', 'sub': '-', 'mul': '*', 'div': '/'}[s[2]]
     if t == 'setix':
@@ -1742,6 +2186,14 @@ def stmt_sig(s):
         return 'x[mask]=e'
     if t == 'xstmt':
         return 'inplace.%s' % s[2]
+    if t == 'iopix':
+        return 'x[%s] %s= e' % (s[3], {'add': '+', 'sub': '-', 'mul': '*', 'div': '/'}[s[2]])
+    if t == 'iopmask':
+        return 'x[mask] %s= e' % {'add': '+', 'sub': '-', 'mul': '*', 'div': '/'}[s[2]]
+    if t == 'out':
+        return 'np.%s(a,b,out=x)' % s[2]
+    if t in ('setreal', 'setimag', 'sortip', 'fill'):
+        return {'setreal': 'x.real=e', 'setimag': 'x.imag=e', 'sortip': 'x.sort()', 'fill': 'x.fill(e)'}[t]
     return t
 
 
@@ -1795,7 +2247,7 @@ def oracle(prog, plain, old, new):
                 if a is None or b is None:
                     continue
                 if not same_obs_values(a, b):
-                    last = [stmt_sig(s) for s in prog['stmts'] if s[0] in ('iop', 'setix', 'setmask', 'xstmt')]
+                    last = [stmt_sig(s) for s in prog['stmts'] if s[0] in INPLACE_STMTS]
                     bad.append(('final-read %s %s' % (mode, last[-1] if last else '-'),
                                 'variable %d read at the end holds %s with %s-style fields, the plain-array reference holds %s (stale alias or lost write)' % (x, short(a), mode, short(b))))
                     break
@@ -1828,9 +2280,9 @@ def shrink(prog, fails):
             ok = True
             for s in cand['stmts']:
                 used.clear()
-                vars_of(s[2:] if s[0] in ('assign',) else s[3:] if s[0] in ('iop', 'setix', 'xstmt') else s[2:])
+                vars_of(s[2:])
                 need = set(used)
-                if s[0] in ('iop', 'setix', 'setmask', 'xstmt'):
+                if s[0] in INPLACE_STMTS:
                     need.add(s[1])
                 if s[0] == 'alias':
                     need = {s[2]}
@@ -1929,6 +2381,31 @@ DIRECTED = [
 ]
 
 
+def _shared_buffer_corpus():
+    """`h = x; x += 1` leaves two wrapper objects on one buffer under new-style fields; every in-place
+    statement applied to either of them must be seen through the other"""
+    one = ['scal', 'r', 1.5, 0.0, 0]
+    m = ['bin', 'gt', 0, ['var', 2], ['scal', 'r', 0.0, 0.0, 0]]
+    kinds = [
+        lambda t: ['sortip', t], lambda t: ['fill', t, one], lambda t: ['setreal', t, ['scal', 'r', -2.0, 0.0, 0]],
+        lambda t: ['setimag', t, ['var', 2]], lambda t: ['iopix', t, 'mul', 'psl', [None, None, -2], one],
+        lambda t: ['iopix', t, 'add', 'tk', [[0, -1, 0]], one], lambda t: ['iopmask', t, 'sub', m, one],
+        lambda t: ['out', t, 'add', ['var', t], ['var', 2]], lambda t: ['out', t, 'max', ['var', 2], ['un', 're', 0, ['var', t]]],
+        lambda t: ['setix', t, 'tk', [[1, -1]], one], lambda t: ['setix', t, 'psl', [-1, None, -1], ['var', 2]], lambda t: ['setmask', t, m, one],
+        lambda t: ['iop', t, 'mul', ['var', 2]],
+    ]
+    progs = []
+    for k, mk in enumerate(kinds):
+        for target in (0, 1):
+            cplx = k in (3,)
+            f0 = _f(0, [4, -2, 3, 1, 0.5], 'c' if cplx else 'r', [1, 1, 2, 2, 3] if cplx else None)
+            if k == 8 and False:
+                continue
+            stmts = [['assign', 0, f0], ['alias', 1, 0], ['assign', 2, _f(0, [1, -1, 2, -2, 0.25])], ['iop', 0, 'add', one], mk(target)]
+            progs.append({'grids': [{'dims': [5], 'sep': True}], 'final': [0, 1, 2], 'stmts': stmts})
+    return progs
+
+
 def check_program(ctx, prog, label):
     plain = run_program(prog, 'plain')
     old = run_program(prog, 'old')
@@ -1975,9 +2452,11 @@ def run(ctx):
     import types
     ctx.known_key = types.MethodType(_known_key, ctx)
     ctx.rule = ('random array programs (4-15 statements over 1-3 Fields of 1-40 points, scalar / vector / 2x2-tensor, real and complex '
-                'dyadic values; arithmetic with broadcasting, exact ufuncs, reductions, integer/slice/mask indexing, shaped/reshape/ravel, '
-                'copy, pickle, aliases, in-place operators and item assignment; "extended" programs add ~120 further NumPy operations and '
-                'in-place methods) are executed on plain ndarrays (reference), with old-style fields, with new-style fields and - when every '
+                'dyadic values; arithmetic with broadcasting between scalar / vector / tensor fields, comparisons and boolean logic, exact ufuncs, '
+                'reductions (all / last / first axis, keepdims), cumsum/cumprod, sort/argsort/argmax, astype, where/clip, 1-d matmul, field_dot/'
+                'field_trace, integer/slice (any step)/fancy/mask indexing, shaped/reshape/ravel, copy, pickle, aliases, and 10 kinds of in-place '
+                'statement (x op= e, x[i] = e, x[mask] = e, x[i] op= e, x[mask] op= e, np.op(a,b,out=x), x.real/.imag = e, x.sort(), x.fill(e)) - '
+                'all of these are constructs of the Lean model; "extended" programs add 100 operations that are compared differentially only are executed on plain ndarrays (reference), with old-style fields, with new-style fields and - when every '
                 'operation is modelled - by both routes of the Lean model. Oracle: old and new must reproduce the reference values, shapes, '
                 'dtype classes and exception classes at every statement and in the final read-out of every variable (aliases included); '
                 'every elementwise node with a Field operand must return a Field on that grid; copy/pickle must return an independent equal '
@@ -1987,6 +2466,15 @@ def run(ctx):
     ctx.assumptions += ['plain ndarray arithmetic is the reference for the values',
                         'dyadic inputs: results are exact or within 1e-12 of the exact value',
                         'mkl_fft and pyfftw are not installed: those backend names exercise the fall-through only']
+    only = sorted((set(EXT) - set(EXT_ALSO_MODELLED)) | (set(XSTMT) - set(XSTMT_ALSO_MODELLED)))
+    listed = sorted(n for l in DIFF_ONLY_WHY.values() for n in l)
+    if sorted(set(listed)) != only:
+        raise MachineryError('operation split out of date: %r' % (sorted(set(only) ^ set(listed)),))
+    ctx.extra['operation_split'] = {
+        'in_model': len(MODEL_OPS), 'in_model_names': MODEL_OPS,
+        'differential_only': len(only), 'differential_only_why': DIFF_ONLY_WHY,
+        'extended_spellings_of_modelled_operations': len(EXT_ALSO_MODELLED) + len(XSTMT_ALSO_MODELLED),
+    }
     before = snapshot_config()
     try:
         _run(ctx)
@@ -1998,7 +2486,7 @@ def run(ctx):
 
 def _run(ctx):
     rng = ctx.rng
-    progs = [(p, 'directed') for p in DIRECTED]
+    progs = [(p, 'directed') for p in DIRECTED + _shared_buffer_corpus()]
     n_core = ctx.scale(1500, 25000)
     n_ext = ctx.scale(1200, 18000)
     for k in range(n_core):
